@@ -81,6 +81,9 @@ pub mod token {
         #[verifier::external_body] pub struct BlockBuilder { _p: u8 }
         #[verifier::external_body] pub struct TrustedOrigins { _p: u8 }
         #[verifier::external_body] pub struct Policy { _p: u8 }
+        #[verifier::external_body] pub struct Rule { _p: u8 }
+        #[verifier::external_body] pub struct Fact { _p: u8 }
+        use std::convert::{TryFrom, TryInto};
         #[verifier::external_body] pub struct Block { _p: u8 }
         //@extract biscuit-auth/src/token/authorizer.rs :: type AuthorizerLimits
         //@end
@@ -122,6 +125,22 @@ pub mod token {
             //@ ensures frame: final(self).limits == old(self).limits && (old(self).execution_time is Some ==> final(self).world.iterations == old(self).world.iterations)
             //@ ensures iterations: final(self).world.iterations >= old(self).world.iterations && (r is Ok && old(self).execution_time is None ==> final(self).world.iterations - old(self).world.iterations <= old(self).limits.max_iterations)
             //@end
+            // ASSUMED: query_with_limits / query_all_with_limits return (contract-free callees: their prologue is `run`, their
+            // bodies are unit authz's query_inner / query_all_inner)
+            #[verifier::external_body]
+            pub fn query_with_limits<R: TryInto<Rule>, T: TryFrom<Fact, Error = E>, E: Into<error::Token>>(&mut self, rule: R, limits: AuthorizerLimits) -> (r: Result<Vec<T>, error::Token>)
+                where error::Token: From<<R as TryInto<Rule>>::Error>
+            { unimplemented!() }
+            #[verifier::external_body]
+            pub fn query_all_with_limits<R: TryInto<Rule>, T: TryFrom<Fact, Error = E>, E: Into<error::Token>>(&mut self, rule: R, limits: AuthorizerLimits) -> (r: Result<Vec<T>, error::Token>)
+                where error::Token: From<<R as TryInto<Rule>>::Error>
+            { unimplemented!() }
+            //@extract biscuit-auth/src/token/authorizer.rs :: impl Authorizer :: fn query
+            //@ requires sane: old(self).sane()
+            //@end
+            //@extract biscuit-auth/src/token/authorizer.rs :: impl Authorizer :: fn query_all
+            //@ requires sane: old(self).sane()
+            //@end
             //@extract biscuit-auth/src/token/authorizer.rs :: impl Authorizer :: fn iterations
             //@ ensures same: r == self.world.iterations
             //@end
@@ -140,5 +159,7 @@ pub mod lspec {
 //@canary remaining-underflow :: token::authorizer::Authorizer::authorize :: .checked_sub(self.world.iterations) ==>> .checked_sub(0).map(|m| m - self.world.iterations)
 //@canary timeout-not-checked :: token::authorizer::Authorizer::authorize :: if execution_time >= limits.max_time { ==>> if false {
 //@canary run-not-cached :: token::authorizer::Authorizer::run :: Some(execution_time) => Ok(execution_time), ==>> Some(execution_time) => { self.world.iterations = 0; Ok(execution_time) }
+//@canary query-timeout-not-checked :: token::authorizer::Authorizer::query :: if execution_time >= limits.max_time { ==>> if false {
+//@canary query-all-remaining-underflow :: token::authorizer::Authorizer::query_all :: .checked_sub(self.world.iterations) ==>> .checked_sub(0).map(|m| m - self.world.iterations)
 //@canary-requires datalog::World::run_with_limits
 //@canary-requires token::authorizer::Authorizer::authorize
